@@ -179,17 +179,29 @@ def audit(prop):
             res['problems'].append('%s uses foreign axioms %s' % (n, bad))
         else:
             res['discharged'] += 1
-    # forbidden constructs in hand-written sources
-    for dp, dn, fn in os.walk(os.path.join(LEAN, 'Hub')):
-        for f in fn:
-            if f.endswith('.lean'):
-                src = open(os.path.join(dp, f)).read()
-                src_nc = re.sub(r'/-.*?-/', '', src, flags=re.S)
-                src_nc = re.sub(r'--.*', '', src_nc)
-                m = FORBIDDEN.search(src_nc)
-                if m:
-                    res['problems'].append('forbidden construct %r in %s' % (m.group(0), os.path.join(dp, f)))
+    # forbidden constructs in the import closure of the property's files (and the driver's)
+    for path in sorted(import_closure(prop_files(prop) + [os.path.join(LEAN, 'Main.lean')])):
+        src = open(path).read()
+        src_nc = re.sub(r'/-.*?-/', '', src, flags=re.S)
+        src_nc = re.sub(r'--.*', '', src_nc)
+        m = FORBIDDEN.search(src_nc)
+        if m:
+            res['problems'].append('forbidden construct %r in %s' % (m.group(0), path))
+    res['closure_files'] = len(import_closure(prop_files(prop)))
     return res
+
+
+def import_closure(files):
+    seen = set()
+    todo = list(files)
+    while todo:
+        f = todo.pop()
+        if f in seen or not os.path.exists(f):
+            continue
+        seen.add(f)
+        for m in re.finditer(r'^import\s+(Hub(?:\.[A-Za-z0-9_]+)+)', open(f).read(), re.M):
+            todo.append(os.path.join(LEAN, *m.group(1).split('.')) + '.lean')
+    return seen
 
 
 # ---------------------------------------------------------------- T-corr
